@@ -1,4 +1,5 @@
 import GqlVerif.Props.C18
+import GqlVerif.Proofs.C18Tables
 open GqlVerif.C18
 #print axioms extractAttr_spec
 #print axioms extractAttr_iff
@@ -26,3 +27,8 @@ open GqlVerif.C18
 #print axioms non_string_value_is_error
 #print axioms derive_keys_match_source
 #print axioms option_spellings_match_source
+-- the model's option parsers are the tables regenerated from the source (docs/REVIEW_3.md finding 13)
+#print axioms GqlVerif.C18T.parseDeprecation_is_table
+#print axioms GqlVerif.C18T.parseNormalization_is_table
+#print axioms GqlVerif.C18T.default_deprecation_is_source_default
+#print axioms GqlVerif.C18T.every_source_arm_is_parsed
